@@ -58,7 +58,7 @@ const gooseMod = "github.com/goose-lang/goose"
 
 // rewriteImports maps the imports of a shipped package into the scratch
 // module: packages under /repo/internal (not importable from outside) are
-// copied as sibling packages lib_<name>; returns ok=false if an import is not available offline.
+// copied as packages lib/<name>; returns ok=false if an import is not available offline.
 func rewriteImports(imps []importSpec) (out []importSpec, extra map[string]map[string]string, why string) {
 	mods := availableModules()
 	extra = map[string]map[string]string{}
@@ -70,7 +70,9 @@ func rewriteImports(imps []importSpec) (out []importSpec, extra map[string]map[s
 			if err != nil || len(files) == 0 {
 				return nil, nil, "cannot copy " + is.Path
 			}
-			rel := "lib_" + pkgBase(is.Path)
+			// (the directory keeps the package's name: an import whose package name differs from the last element
+			// of its path is refused since fix fabb596)
+			rel := "lib/" + pkgBase(is.Path)
 			extra[rel] = files
 			np := modPath + "/" + rel
 			is.Text = strings.Replace(is.Text, is.Path, np, 1)
